@@ -8,7 +8,9 @@ import (
 	"fmt"
 	"io"
 	"math"
+	"reflect"
 	"sort"
+	"strconv"
 	"strings"
 	"time"
 
@@ -669,6 +671,14 @@ func init() {
 				}
 				return "altered"
 			}
+			if p.isInt && p.big != "" {
+				if un, ok := node.(datamodel.UintNode); ok {
+					if u, e := un.AsUint(); e == nil && strconv.FormatUint(u, 10) == p.big {
+						return "exact"
+					}
+				}
+				return "altered"
+			}
 			if p.isInt {
 				got, e := node.AsInt()
 				if e != nil || p.big != "" || got != p.want {
@@ -801,11 +811,32 @@ func init() {
 				}
 				return t2.Arguments().GetNode("k")
 			})
+			// an Args the caller assembled through its exported fields (Add's checks never saw the value): the constructor stores
+			// it exactly or refuses - a token from which a supplied argument has disappeared is neither
+			n10, e10 := safe(func() (ipld.Node, error) {
+				raw, ok := rawNodeOf(p.val)
+				if !ok {
+					return n1, e1
+				}
+				hb := &args.Args{Keys: []string{"j", "k"}, Values: map[string]ipld.Node{"j": basicnode.NewInt(1), "k": raw}}
+				inv, err := invocation.New(didOrPanic(), didOrPanic(), command.Top(), nil, invocation.WithArguments(hb))
+				if err != nil {
+					return nil, err
+				}
+				got, err := inv.Arguments().GetNode("k")
+				if err != nil {
+					return nil, nil // supplied, accepted, gone
+				}
+				if _, err := inv.Arguments().GetNode("j"); err != nil {
+					return nil, nil
+				}
+				return got, nil
+			})
 			for _, r := range []struct {
 				api string
 				n   ipld.Node
 				e   error
-			}{{"WithArguments(shared Args)", n9, e9}, {"args.Add", n1, e1}, {"meta.Add", n2, e2}, {"literal.Any", n3, e3}, {"invocation.WithArgument", n4, e4},
+			}{{"WithArguments(hand-built Args)", n10, e10}, {"WithArguments(shared Args)", n9, e9}, {"args.Add", n1, e1}, {"meta.Add", n2, e2}, {"literal.Any", n3, e3}, {"invocation.WithArgument", n4, e4},
 				{"args.Builder.Build", n5, e5}, {"args.Builder.BuildIPLD", n6, e6}, {"Args.Clone/Include/WithArguments", n7, e7}, {"Meta.Clone/Include", n8, e8}} {
 				pn := false
 				if r.e != nil && strings.HasPrefix(r.e.Error(), "panic") {
@@ -820,6 +851,54 @@ func init() {
 		}
 		return nil
 	}
+}
+
+// rawNodeOf builds the IPLD node of a Go value without any of the library's checks.
+func rawNodeOf(v any) (ipld.Node, bool) {
+	switch x := v.(type) {
+	case ipld.Node:
+		return x, true
+	case []any:
+		var ns []ipld.Node
+		for _, e := range x {
+			n, ok := rawNodeOf(e)
+			if !ok {
+				return nil, false
+			}
+			ns = append(ns, n)
+		}
+		return listOf(ns...), true
+	case map[string]any:
+		m := map[string]ipld.Node{}
+		for k, e := range x {
+			n, ok := rawNodeOf(e)
+			if !ok {
+				return nil, false
+			}
+			m[k] = n
+		}
+		return mapNode(m), true
+	case string:
+		return basicnode.NewString(x), true
+	case bool:
+		return basicnode.NewBool(x), true
+	case float64:
+		return basicnode.NewFloat(x), true
+	case float32:
+		return basicnode.NewFloat(float64(x)), true
+	}
+	rv := reflect.ValueOf(v)
+	switch rv.Kind() {
+	case reflect.Int, reflect.Int8, reflect.Int16, reflect.Int32, reflect.Int64:
+		return basicnode.NewInt(rv.Int()), true
+	case reflect.Uint, reflect.Uint8, reflect.Uint16, reflect.Uint32, reflect.Uint64:
+		if u := rv.Uint(); u > math.MaxInt64 {
+			return basicnode.NewUint(u), true
+		} else {
+			return basicnode.NewInt(int64(u)), true
+		}
+	}
+	return nil, false
 }
 
 var didCache did.DID
